@@ -172,6 +172,10 @@ impl World {
             Ok(Ok(m)) => {
                 out.count(&format!("result:ok{}", m.len().min(6)));
                 let order: Vec<usize> = m.keys().map(|k| keys.get_index_of(k).unwrap()).collect();
+                if (2..=3).contains(&order.len()) {
+                    // which completion orders were actually seen for small requests
+                    out.count(&format!("order{}:{}", order.len(), order.iter().map(|i| i.to_string()).collect::<Vec<_>>().join("")));
+                }
                 if order.windows(2).all(|w| w[0] < w[1]) {
                     out.count("completion:in-request-order");
                 } else {
@@ -301,7 +305,7 @@ pub fn run(args: Args) {
     }
     // (b) random sets of 2..6 keys, biased towards shared names and towards resolvable keys;
     //     all request orders for sets of up to 3 keys, 3 random orders otherwise
-    let nsets = if args.thorough() { 2000 } else { args.num("sets", 60) };
+    let nsets = if args.thorough() { 5000 } else { args.num("sets", 60) };
     for _ in 0..nsets {
         let n = 2 + r.below(5);
         let mut set: Vec<K> = Vec::new();
